@@ -118,7 +118,7 @@ def run_mutants(unit, tier='quick', sel=None):
         finally:
             shutil.rmtree(scratch, ignore_errors=True)
 
-    with cf.ThreadPoolExecutor(max_workers=4) as ex:
+    with cf.ThreadPoolExecutor(max_workers=int(os.environ.get('CVS_MUTANT_JOBS', '3'))) as ex:
         for r in ex.map(one, jobs):
             out.append(r)
     return out
@@ -128,11 +128,13 @@ def cmd_mutants(args):
     unit = core.load_unit(args[0])
     res = run_mutants(unit, 'quick', set(args[1:]) or None)
     surv = 0
+    und = 0
     for r in res:
-        log('  %-8s %-24s %r -> %r  %s %s' % ('KILLED' if r['killed'] else 'SURVIVED', r['task'], r['old'], r['new'],
-                                             ','.join(r['by']), r.get('note', '')))
+        st = 'KILLED' if r['killed'] else ('UNDECIDED' if r.get('undecided') else 'SURVIVED')
+        log('  %-9s %-24s %r -> %r  %s %s' % (st, r['task'], r['old'], r['new'], ','.join(r['by']), r.get('note', '')))
         surv += 0 if r['killed'] else 1
-    log('%d mutants, %d survived' % (len(res), surv))
+        und += 1 if st == 'UNDECIDED' else 0
+    log('%d mutants, %d not killed (%d of them undecided: solver time-outs or build problems, not survivors)' % (len(res), surv, und))
     return 1 if surv else 0
 
 
